@@ -464,3 +464,50 @@ def replay_h_handle_after_remove(n0, n1, n2, drop, looked):
         return False, "handle describes what is left"
     finally:
         shutil.rmtree(d, ignore_errors=True)
+
+
+# ------------------------------------------------------------------ directory labels of partition values ---
+import numpy as _np
+import fastparquet.util as _util
+
+LABEL_VALUES = [1, 1.0, True, _np.int64(1), "1", 0, 0.0, False, _np.float64(1.0), 2.5]
+
+
+class _MemoModel:
+    """functools caches are keyed by argument equality (and hash): CrossHair executes the undecorated function, so the
+    memoisation a decorator adds is modelled explicitly"""
+
+    def __init__(self, fn):
+        self.fn, self.seen = fn, {}
+
+    def __call__(self, arg):
+        if arg not in self.seen:
+            self.seen[arg] = self.fn(arg)
+        return self.seen[arg]
+
+
+def h_path_string_sequence(i0: int, i1: int, i2: int) -> bool:
+    """
+    pre: 0 <= i0 < 10 and 0 <= i1 < 10 and 0 <= i2 < 10
+    post: __return__
+    """
+    # the directory label of a partition value is its own text, whatever values were labelled before it in this
+    # process (1, 1.0, True and numpy's 1 are equal and hash alike - their labels are '1', '1.0', 'True', '1')
+    vals = [LABEL_VALUES[_pick(i, 0, 9)] for i in (i0, i1, i2)]
+    fn = _util.path_string
+    if hasattr(fn, "cache_info"):
+        fn = _MemoModel(fn.__wrapped__)
+    return [fn(v) for v in vals] == [str(v) for v in vals]
+
+
+def replay_h_path_string_sequence(i0, i1, i2):
+    import shutil, tempfile
+    import pandas as pd
+    import fastparquet
+    vals = [LABEL_VALUES[i] for i in (i0, i1, i2)]
+    if hasattr(_util.path_string, "cache_clear"):
+        _util.path_string.cache_clear()
+    got = [_util.path_string(v) for v in vals]
+    if got != [str(v) for v in vals]:
+        return True, "path_string over %r (in this order) gives %r" % (vals, got)
+    return False, "each value has its own label"
